@@ -31,7 +31,7 @@ def register(cat):
 
     # ------------------------------------------------------------------ creators
     def run_new_tensor(eng, ops, st):
-        data = np.asarray(dec(st["data"]), dtype=float)
+        data = np.asarray(dec(st["data"]), dtype=st.get("dtype", "float64"))
         data = np.asfortranarray(data) if st.get("order", "F") == "F" else np.ascontiguousarray(data)
         return ttb.tensor(data, copy=st.get("copy", True))
 
@@ -42,7 +42,7 @@ def register(cat):
         if not st["subs"]:
             return ttb.sptensor(shape=shape)
         subs = np.array(st["subs"], dtype=int).reshape(len(st["subs"]), len(shape))
-        vals = np.array(st["vals"], dtype=float).reshape(-1, 1)
+        vals = np.array(st["vals"], dtype=st.get("dtype", "float64")).reshape(-1, 1)
         return ttb.sptensor(subs, vals, shape, copy=st.get("copy", True))
 
     op("new_sptensor", None, lambda c, r: c.cat.step_new_sptensor(c.g, c.g.choice(c.heap_families())), run_new_sptensor, weight=0.6)
